@@ -322,3 +322,85 @@ def finish_trace_check(prop, tier, seed, work, trace_path, trace, key_fn, level,
     cov["known_findings_reported"] = sorted(printed_known)
     write_evidence(prop, tier, seed, level, cov, assumptions, time.time() - t0, violations=len(seen))
     return rc
+
+
+def run_drivers(binary, jobs, work, race=False):
+    """jobs: list of (name, args). Runs them in parallel; returns {name: trace_path}. A driver that dies is
+    infrastructure trouble unless it reports a crash of the application under test (handled by callers)."""
+    outs = {}
+
+    def one(job):
+        name, args = job
+        path = os.path.join(work, "trace_%s.ndjson" % name)
+        rc, out, err = driver(binary, list(args) + ["-out", path], work)
+        return name, path, rc, out, err
+
+    with ThreadPoolExecutor(max_workers=NCPU) as ex:
+        for name, path, rc, out, err in ex.map(one, jobs):
+            if rc != 0:
+                raise Infra("driver %s failed rc=%d\n%s\n%s" % (name, rc, out[-2000:], err[-3000:]))
+            outs[name] = path
+    return outs
+
+
+def concat(paths, dest):
+    with open(dest, "w") as g:
+        for p in paths:
+            with open(p) as f:
+                shutil.copyfileobj(f, g)
+    return dest
+
+
+def run_stateful_check(prop, tier, seed, work, *, mc_list, groups, key_fn, level, assumptions, rule,
+                       race=False, extra_cov=None, nontrivial_fn=None):
+    """mc_list: [(spec, cfg)] exhaustive/simulation configs of the specification alone.
+       groups: [(trace_spec, trace_cfg, [(name, driver args)])]: traces of one group are validated with one cfg."""
+    t0 = time.time()
+    binary = build(race=race)
+    states = transitions = 0
+    mc_info = []
+    for spec, cfg in mc_list:
+        r = model_check(spec, cfg, work)
+        states += r.distinct
+        transitions += r.generated
+        mc_info.append(dict(cfg=cfg, distinct=r.distinct, generated=r.generated, depth=r.depth))
+        log("%s: model checked %s: %d distinct / %d generated states" % (prop, cfg, r.distinct, r.generated))
+    rc_all, ntr, nev, samples, known_rep = EXIT_OK, 0, 0, [], []
+    nviol = 0
+    all_traces = []
+    for gi, (tspec, tcfg, jobs) in enumerate(groups):
+        paths = run_drivers(binary, jobs, work)
+        trace_path = concat([paths[n] for n, _ in jobs], os.path.join(work, "group%d.ndjson" % gi))
+        all_traces.append(trace_path)
+        n_init = sum(1 for l in open(trace_path) if '"ev":"init"' in l)
+        gw = os.path.join(work, "g%d" % gi)
+        os.makedirs(gw, exist_ok=True)
+        rc = finish_trace_check(prop, tier, seed, gw, trace_path, (tspec, tcfg), key_fn, level, assumptions, rule,
+                                states=states, transitions=transitions, t0=t0, boundary=lambda ln: '"ev":"init"' in ln,
+                                ntraces=n_init, nontrivial_fn=nontrivial_fn)
+        ev = json.load(open(os.path.join(EVIDENCE, prop + ".json")))
+        ntr += ev["coverage"]["traces_validated_against_impl"]
+        nev += ev["coverage"]["events_validated"]
+        samples += ev["coverage"]["samples"][:2]
+        known_rep += ev["coverage"].get("known_findings_reported", [])
+        nviol += ev.get("violations", 0)
+        rc_all = max(rc_all, rc)
+    # merged evidence
+    kinds = {}
+    total_lines = 0
+    distinct = set()
+    for tp in all_traces:
+        for l in open(tp):
+            total_lines += 1
+            m = re.search(r'"ev":"(\w+)"', l)
+            okm = re.search(r'"ok":(true|false)', l)
+            k = (m.group(1) if m else "?") + ("/" + okm.group(1) if okm else "")
+            kinds[k] = kinds.get(k, 0) + 1
+            distinct.add(hashlib.sha1(re.sub(r'"(run|log|vid|payload|reuse)":[^,}]*,?', "", l).encode()).digest())
+    cov = dict(states=states, transitions=transitions, traces_validated_against_impl=ntr, events_validated=nev,
+               evaluations=total_lines, distinct_nontrivial=len(distinct), rule=rule, samples=samples[:6],
+               model_checking=mc_info, event_counts=kinds, known_findings_reported=sorted(set(known_rep)), exhaustive=False)
+    if extra_cov:
+        cov.update(extra_cov)
+    write_evidence(prop, tier, seed, level, cov, assumptions, time.time() - t0, violations=nviol)
+    return rc_all
